@@ -74,6 +74,8 @@ var classNames = []struct {
 	w    int
 }{
 	{"Nd", 6}, {"Lu", 6}, {"Ll", 6}, {"Zs", 5}, {"Greek", 3}, {"Latin", 4}, {"White_Space", 5}, {"L", 1},
+	// the classes U+FFFD itself belongs to (a byte that is not UTF-8 is read as that rune), marks, format characters
+	{"So", 4}, {"S", 2}, {"Common", 2}, {"Mn", 3}, {"Cf", 2},
 }
 
 func srcRune(r rune) string {
